@@ -1,2 +1,5 @@
-// harnesses for this module (filled in below)
+// Kani harnesses compiled as `crate::solve::vanilla::verif_kani` (child of src/solve/vanilla.rs).
 #![allow(dead_code, unused_imports, clippy::all)]
+
+#[path = "/verif/kani/vanilla/driver.rs"]
+mod driver;
